@@ -115,7 +115,7 @@ def _work(st, batch):
 def run(res):
     thorough = res.tier == "thorough"
     bins = core.build([VARIANT])
-    progs = tw.corpus_programs(res.seed, 1200 if thorough else 80) + tw.generated_programs(res.seed, 12000 if thorough else 1200)
+    progs = tw.corpus_programs(res.seed, 1200 if thorough else 150) + tw.generated_programs(res.seed, 12000 if thorough else 4000)
     progs = [p for p in progs if len(p[1]) < 60000]
     items = [(tag, text, res.seed, 6 if thorough else 3) for tag, text in progs]
     parts = core.pmap(_work, tw.batches(items, 10), init=tw.init_state, initargs=(bins,))
